@@ -602,7 +602,8 @@ impl Formatter {
         if self.html {
           format!("<span class=\"mech-text\">{}</span>", n.to_string())
         } else {
-          n.to_string()
+          // a backslash in paragraph text is an escape character when read back
+          n.to_string().replace('\\', "\\\\")
         }
       }
       ParagraphElement::FootnoteReference(n) => self.footnote_reference(n),
